@@ -55,7 +55,7 @@ def build_case(beh, name, shape_seed=0):
                 res.append({"op": "run", "t": [o["t"], 0], "idle": o["idle"]})
             elif k == "acreate":
                 res.append({"op": "acreate", "aid": o["aid"], "oid": o["oid"], "init": item(o["item"]),
-                            "form": (o["aid"] + shape_seed) % 3})
+                            "form": (o["aid"] + o["item"] + shape_seed) % 3})
             elif k == "call":
                 holds = {}
                 if o.get("ho"):
